@@ -134,12 +134,12 @@ def gen_cases(ctx, classes):
                     vals = [_rand_val(rng, x) for x in widths]
                     vals[i] = rng.bytes_(ln)
                     cases.append({"kind": "pad", "cls": name, "vals": _jvals(vals)})
-        for _ in range(ctx.scale(40, 1500)):
+        for _ in range(ctx.scale(120, 1500)):
             cases.append({"kind": "enc", "cls": name, "vals": _jvals([_rand_val(rng, x) for x in widths])})
         for _ in range(ctx.scale(15, 500)):
             cases.append({"kind": "decx", "cls": name, "vals": _jvals([_rand_val(rng, x) for x in widths]),
                           "extra": rng.bytes_(rng.choice([0, 1, 7, 40])).hex()})
-        for _ in range(ctx.scale(20, 800)):
+        for _ in range(ctx.scale(50, 800)):
             cases.append({"kind": "buf", "cls": name, "data": rng.bytes_(total).hex()})
         for ln in sorted({0, 1, total - 1, total + 1, total + 9, max(0, total - rng.randint(1, total))}):
             cases.append({"kind": "bad", "cls": name, "data": rng.bytes_(ln).hex(), "excess": False})
